@@ -481,7 +481,14 @@ pub fn run_check(prop: &dyn Prop, cfg: &RunCfg) -> i32 {
             ("probe_counts", fmap(&sum.stats.probes)),
             ("fault_counts", fmap(&sum.stats.faults)),
             ("wall_s", J::Float((sum.wall_s * 1000.0).round() / 1000.0)),
-            ("note", json::s("same check, same seeds, crate built with --cfg micro_http_verif=\"small\" (64-byte receive window, hook H3); the reference model is parameterised by the window")),
+            (
+                "note",
+                json::s(if cfg!(miri) {
+                    "same check executed under Miri (undefined-behaviour detection), single-threaded, far fewer runs"
+                } else {
+                    "same check, same seeds, crate built with --cfg micro_http_verif=\"small\" (64-byte receive window, hook H3); the reference model is parameterised by the window"
+                }),
+            ),
         ]);
         let _ = std::fs::write(f, j.to_string());
     }
